@@ -121,7 +121,17 @@ pub fn abstract_store(layers: &Path, names: &[String]) -> Value {
             }
         }
     }
-    json!({"layers": out, "extra": extra})
+    // top-level entries that are symbolic links (reading through them above cannot tell a dangling one from none)
+    let mut links = vec![];
+    if let Ok(rd) = std::fs::read_dir(layers) {
+        for e in rd.flatten() {
+            if let Ok(t) = std::fs::read_link(e.path()) {
+                links.push(json!([e.file_name().to_string_lossy(), t.to_string_lossy()]));
+            }
+        }
+    }
+    links.sort_by_key(ToString::to_string);
+    json!({"layers": out, "extra": extra, "links": links})
 }
 
 /// the CNB lifecycle between two builds, as far as the layers directory is concerned
